@@ -648,8 +648,15 @@ func checkME(c *vsched.RunCtx, prop string) {
 		depth = 6
 	}
 	if c.Replay != nil {
-		replayME(c, prop)
+		if c.Replay.Harness == "sched:me-timers" {
+			runMEDrivers(c, false)
+		} else {
+			replayME(c, prop)
+		}
 		return
+	}
+	if prop == "C14" {
+		runMEDrivers(c, false)
 	}
 	cfgs := meConfigs(c.Thorough())
 	idx, sub, nsub := c.Split(len(cfgs))
@@ -702,4 +709,127 @@ func replayME(c *vsched.RunCtx, prop string) {
 	c.SetReplay(rr)
 }
 
-func checkMERaces(c *vsched.RunCtx) {}
+// ---- concurrency driver: Current || SetEndpointAvailability || SetEndpoints || two due timers ----
+
+func meDriverBody(variant int) func(s *vsched.Sched) *vsched.ExecOutcome {
+	return func(s *vsched.Sched) *vsched.ExecOutcome {
+		s.Frozen = true
+		cfg := meCfg{Init: []string{"A", "B", "C"}, R: 10 * ms, D: 4 * ms}
+		w := newMEWorld(s, cfg, "C14")
+		for _, op := range []string{"avail(B,1)", "adv(10)", "avail(A,1)", "avail(C,1)", "avail(C,0)"} {
+			w.Do(op)
+		}
+		// now: current B, delayed switch to A pending (4ms), C recovering (10ms)
+		clock := s.Clock()
+		var due []*vsched.VTimer
+		for _, t := range s.Pending() {
+			due = append(due, t)
+		}
+		s.Frozen = false
+		var viol []vsched.Violation
+		add := func(prop, rule, cause, msg string) {
+			viol = append(viol, vsched.Violation{Property: prop, Rule: rule, Sig: rule + " [driver me-timers] " + cause, Msg: msg})
+		}
+		if w.poisoned || len(due) < 2 {
+			return &vsched.ExecOutcome{Outcome: fmt.Sprintf("setup-failed(due=%d)", len(due)), Violations: w.Take()}
+		}
+		// both timers become due "now" and run as concurrent threads
+		s.SetNow(clock.Add(10*ms + slack))
+		var ths []*vsched.Thread
+		var names []string
+		for _, t := range due {
+			s.Expire(t)
+			if t.Fn != nil {
+				ths = append(ths, s.Fire(t))
+				names = append(names, "timer")
+			}
+		}
+		var cur []string
+		ops := [][]func(){
+			{func() { w.me.SetEndpoints([]string{"B", "A"}) }, func() { w.me.SetEndpointAvailability("B", false) }},
+			{func() { w.me.SetEndpoints([]string{"C", "A", "B"}) }, func() { w.me.SetEndpointAvailability("A", false) }},
+			{func() { w.me.SetEndpoints([]string{"A"}) }, func() { w.me.SetEndpointAvailability("C", true) }},
+		}[variant]
+		ths = append(ths, s.Go("setEndpoints", ops[0]), s.Go("setAvail", ops[1]), s.Go("reader", func() {
+			cur = append(cur, w.me.Current())
+			cur = append(cur, w.me.Current())
+		}))
+		names = append(names, "setEndpoints", "setAvail", "reader")
+		s.WaitQuiescent()
+		var out []string
+		for i, th := range ths {
+			switch {
+			case th.PanicVal != nil:
+				add("C13", "C13.TOTAL", fmt.Sprintf("panic in %s (thread %s)", th.PanicSite, names[i]), fmt.Sprint(th.PanicVal))
+				out = append(out, names[i]+":panic")
+			case !th.Done():
+				add("C13", "C13.TOTAL", "thread "+names[i]+" blocked forever", th.Desc)
+				out = append(out, names[i]+":blocked")
+			default:
+				out = append(out, names[i]+":ok")
+			}
+		}
+		// convergence: fire everything that is left, then Current() must be the top available endpoint
+		if len(viol) == 0 {
+			for i := 0; i < 20; i++ {
+				p := s.Pending()
+				if len(p) == 0 {
+					break
+				}
+				s.AdvanceBy(p[0].When.Sub(s.Clock()) + slack)
+			}
+			impl := w.impl
+			top := ""
+			best := 1 << 30
+			for id, e := range impl.endpoints {
+				if e.status == available && e.priority < best {
+					top, best = id, e.priority
+				}
+			}
+			if _, in := impl.endpoints[impl.current]; !in {
+				add("C13", "C13.M1", "current not in list after concurrent operations", impl.current)
+			}
+			if top != "" && impl.current != top {
+				add("C14", "C14.L1", "quiescent current is not the top available endpoint after concurrent operations", fmt.Sprintf("current=%s top available=%s", impl.current, top))
+			}
+		}
+		o := strings.Join(out, ",") + "|" + strings.Join(cur, ",") + "|" + w.impl.current
+		return &vsched.ExecOutcome{Outcome: o, StateKey: o, Nontrivial: true, Violations: viol}
+	}
+}
+
+func runMEDrivers(c *vsched.RunCtx, race bool) {
+	pre, dev, delay := 2, 1, 3
+	if c.Thorough() {
+		pre, dev, delay = 3, 1, 4
+	}
+	for v := 0; v < 3; v++ {
+		name := fmt.Sprintf("variant=%d", v)
+		if c.Replay != nil {
+			if c.Replay.Harness == "sched:me-timers" && c.Replay.Config == name {
+				out, s := vsched.RunOnce(vsched.ExploreOpts{Race: race}, c.Replay.Choices, true, meDriverBody(v))
+				rr := &vsched.ReplayResult{Trace: s.Events}
+				for _, x := range out.Violations {
+					if x.Sig == c.Replay.Sig {
+						rr.Reproduced, rr.Msg = true, x.Msg
+					}
+				}
+				for sig := range s.Races {
+					if "race: "+sig == c.Replay.Sig {
+						rr.Reproduced, rr.Msg = true, sig
+					}
+				}
+				c.SetReplay(rr)
+			}
+			continue
+		}
+		res := vsched.Explore(vsched.ExploreOpts{Name: "sched:me-timers", Config: name, PreemptBound: pre, DevBound: dev, DelayBound: delay, Race: race,
+			Deadline: c.Deadline, Shard: c.Shard, NShards: c.NShards}, meDriverBody(v))
+		c.Add(res)
+	}
+}
+
+func checkMERaces(c *vsched.RunCtx) {
+	runMEDrivers(c, true)
+	c.Assume("multiendpoint driver: two due timers, SetEndpoints, SetEndpointAvailability and a Current() reader as concurrent threads on the real multiEndpoint")
+}
